@@ -302,6 +302,14 @@ pub fn run(ctx: &Ctx) {
     });
 }
 
+/// thorough tier: coverage-guided differential campaign
+pub fn fuzz(ctx: &Ctx) {
+    if ctx.tier == crate::engine::Tier::Thorough {
+        let seeds: Vec<Vec<u8>> = vec![gt::simple_hello()].into_iter().map(|h| { let mut v = vec![3u8, 9, 200]; v.extend(h.record()); v.extend_from_slice(&[0x17, 3, 3, 0, 1, 0]); v }).collect();
+        ctx.fuzz_campaign("tls_segments", "seeded", &seeds, 3_000_000, 420);
+    }
+}
+
 pub fn check_seg_case(c: &SegCase, st: &mut Stats) -> Result<(), Fail> {
     if !c.hello.fits() || c.hello.record().len() > 20000 {
         st.discards += 1;
